@@ -171,6 +171,19 @@ func runCodecPool(c *Ctx, r *RuleRun) {
 						}
 						continue
 					}
+					// a helper of the module: does what it returns alias what it is handed? (compressClone(buf) returns a copy)
+					if h := x.Call.StaticCallee(); h != nil && p.InModule(h) && len(h.Blocks) > 0 && canAlias(x.Type()) {
+						aliases := false
+						for ai, a := range x.Call.Args {
+							if a == v && resultMayAlias(p, h, ai, 0) {
+								aliases = true
+							}
+						}
+						if aliases {
+							add(x)
+						}
+						continue
+					}
 					// any other call that returns something able to alias its arguments (readers, wrappers, sub-slices)
 					if canAlias(x.Type()) {
 						add(x)
